@@ -18,6 +18,12 @@ func (eng *Engine) makeReplay(id string, cfg *PropConfig, v *violation, dir stri
 	path := filepath.Join(dir, name)
 	var sb strings.Builder
 	fmt.Fprintf(&sb, "property: %s\nfailed obligation: %s\nkind: %s\nsource: %s:%d\ngoal: %s\nsolver attempts: %s\nstatus: %s\n", id, r.Obl.name, r.Obl.kind, r.Obl.pos.Filename, r.Obl.pos.Line, r.Obl.text, strings.Join(r.Attempts, " "), r.Status)
+	if v.demoOut != "" {
+		fmt.Fprintf(&sb, "\nthe demonstration of a repaired defect fails again on this tree:\n%s\n", v.demoOut)
+		os.WriteFile(path, []byte(sb.String()), 0o644)
+		v.replay = path
+		return
+	}
 	model := ""
 	if r.gen != nil {
 		model = eng.candidateModel(r.gen, r.Obl, r.dir, r.idx)
